@@ -1830,3 +1830,120 @@ add("modelMethodsDoNotStoreConcrete", "Sched", ["C10"], "acryo/alignment/_concre
     pattern(_no_self_stores(set())))
 add("tiltModelsDoNotStore", "Sched", ["C10"], "acryo/tilt/_base.py", "const", [],
     pattern(_no_self_stores(set())))
+
+
+# ==========================================================================================
+# C20  particle picking: chunk offsets, core filter, overlap depths, rotation lookup
+# ==========================================================================================
+_PKB = "acryo/pick/_base.py"
+_PKC = "acryo/pick/_concrete.py"
+
+
+def _in_chunk(t):
+    fn = func(t, "BasePickerModel._pick_in_chunk_wrapped")
+    test = assign_rhs(fn, "in_chunk")
+    if not (isinstance(test, ast.Call) and ast.unparse(test.func) == "np.all" and isinstance(test.args[0], ast.BinOp)
+            and isinstance(test.args[0].op, ast.BitAnd) and ast.unparse(kwarg(test, "axis")) == "1"):
+        raise SelectorMiss("in_chunk is not np.all(a & b, axis=1)")
+    both = ast.BoolOp(ast.And(), [test.args[0].left, test.args[0].right])
+    ast.fix_missing_locations(both)
+    return ([("lower", assign_rhs(fn, "lower")), ("upper", assign_rhs(fn, "upper")), ("in_chunk", both)], ["in_chunk"])
+
+
+add("pickInChunk", "Pick", ["C20"], _PKB, "lets", [("pos", R), ("depth", I), ("blocklen", I)], _in_chunk,
+    subst={"np.asarray(_depth)": "depth", "np.asarray(image.shape)": "blocklen"})
+
+
+def _pick_global(t):
+    fn = func(t, "BasePickerModel._pick_in_chunk_wrapped")
+    aug = augassign(fn, "pos[:, i]")
+    if not isinstance(aug.op, ast.Add):
+        raise SelectorMiss("chunk offset is not added")
+    step1 = ast.BinOp(aug.target, ast.Add(), aug.value)
+    fn2 = func(t, "BasePickerModel.pick_molecules")
+    step2 = assign_rhs(fn2, "mole._pos")
+    ast.fix_missing_locations(step1)
+    return ([("shifted", step1), ("out", step2)], ["out"])
+
+
+add("pickGlobal", "Pick", ["C20"], _PKB, "lets", [("loc", R), ("start", I), ("depth", I), ("scale", R)], _pick_global,
+    subst={"pos[:, i]": "loc", "mole._pos": "shifted", "_depth": "depth"})
+add("pickDepthClamp", "Pick", ["C20"], _PKB, "expr", [("s", I), ("d", I)],
+    lambda t: first(_untuple(assign_rhs(func(t, "BasePickerModel.pick_molecules"), "_depth")), ast.GeneratorExp).elt)
+add("pickDepthWithMargin", "Pick", ["C20"], _PKB, "expr", [("d", I), ("margin", I)],
+    lambda t: first(assign_rhs(func(t, "BasePickerModel.pick_molecules"), "depth", 1), ast.GeneratorExp).elt)
+add("pickMoleculesStructure", "Pick", ["C20"], _PKB, "const", [],
+    pattern(lambda t: _has(ast.unparse(func(t, "BasePickerModel.pick_molecules")),
+                           "if isinstance(image, np.ndarray): image = da.asarray(image)",
+                           "params, depth = self.get_params_and_depth(scale)",
+                           "if isinstance(depth, (int, np.integer)): depth = (depth, depth, depth)",
+                           "margin = self._get_search_margin(**kwargs)",
+                           "_depth = tuple((min(s, d) for s, d in zip(image.shape, depth)))",
+                           "image.map_overlap(self._pick_in_chunk_wrapped, **params, **kwargs, _depth=_depth, depth=_depth, "
+                           "trim=False, boundary=boundary, dtype=object, meta=np.array([]))",
+                           "boxes: Sequence[MoleculesBox] = task.compute().ravel()",
+                           "mole = Molecules.concat([box.to_molecules() for box in boxes])", "return mole")))
+add("pickWrappedStructure", "Pick", ["C20"], _PKB, "const", [],
+    pattern(lambda t: _has(ast.unparse(func(t, "BasePickerModel._pick_in_chunk_wrapped")),
+                           "pos, quats, features = self.pick_in_chunk(image, **kwargs)",
+                           "pos = pos[in_chunk]", "quats = quats[in_chunk]",
+                           "features = {k: v[in_chunk] for k, v in features.items()}",
+                           "locs: list[tuple[int, int]] = block_info[None]['array-location']",
+                           "for i, (start, _) in enumerate(locs): pos[:, i] += start",
+                           "return np.array([[[MoleculesBox(pos, quats, features)]]], dtype=object)")
+            and _has(ast.unparse(func(t, "BasePickerModel._get_search_margin")), "return 0")))
+add("logDepth", "Pick", ["C20"], _PKC, "lets", [("sigma", R), ("scale", R)],
+    lambda t: ([("sigma_px", assign_rhs(func(t, "LoGPicker.get_params_and_depth"), "sigma_px")),
+                ("depth", assign_rhs(func(t, "LoGPicker.get_params_and_depth"), "depth"))], ["sigma_px", "depth"]),
+    subst={"self._sigma": "sigma"})
+add("dogDepth", "Pick", ["C20"], _PKC, "lets", [("sigma_low", R), ("scale", R)],
+    lambda t: ([("sigma1_px", assign_rhs(func(t, "DoGPicker.get_params_and_depth"), "sigma1_px")),
+                ("depth", assign_rhs(func(t, "DoGPicker.get_params_and_depth"), "depth"))], ["sigma1_px", "depth"]),
+    subst={"self._sigma_low": "sigma_low"})
+add("pickBlobRadius", "Pick", ["C20"], _PKC, "const", [],
+    pattern(lambda t: _has(ast.unparse(func(t, "LoGPicker.pick_in_chunk")), "img_filt = -ndi.gaussian_laplace(image, sigma)",
+                           "pos = find_maxima(img_filt, sigma, 0.0)", "return simple_pick(img_filt, pos)")
+            and _has(ast.unparse(func(t, "DoGPicker.pick_in_chunk")), "img_filt = _differece_of_gaussian(image, sigma_low, sigma_high)",
+                     "pos = find_maxima(img_filt, sigma_low, 0.0)", "return simple_pick(img_filt, pos)")
+            and _has(ast.unparse(func(t, "LoGPicker.get_params_and_depth")), "return ({'sigma': sigma_px}, depth)")
+            and _has(ast.unparse(func(t, "DoGPicker.get_params_and_depth")),
+                     "return ({'sigma_low': sigma1_px, 'sigma_high': sigma2_px}, depth)")))
+add("tmDepth", "Pick", ["C20"], _PKB, "expr", [("n", I)],
+    lambda t: _untuple(assign_rhs(func(t, "BaseTemplateMatcher.get_params_and_depth"), "depth")),
+    subst={"np.array(templates[0].shape)": "n"})
+add("tmMargin", "Pick", ["C20"], _PKC, "expr", [("min_distance", R)],
+    lambda t: ret(func(t, "ZNCCTemplateMatcher._get_search_margin")))
+add("tmOffset", "Pick", ["C20"], _PKC, "expr", [("n", I)],
+    lambda t: assign_rhs(func(t, "ZNCCTemplateMatcher.pick_in_chunk"), "offset"),
+    subst={"np.array(templates[0].shape)": "n"}, want="Rat")
+add("tmMinDistancePx", "Pick", ["C20"], _PKC, "expr", [("min_distance", R), ("scale", R)],
+    lambda t: kwarg(call(func(t, "ZNCCTemplateMatcher.pick_molecules"), "super().pick_molecules"), "min_distance"))
+add("tmStructure", "Pick", ["C20"], _PKC, "const", [],
+    pattern(lambda t: _has(ast.unparse(func(t, "ZNCCTemplateMatcher.pick_in_chunk")),
+                           "ncc_landscape_no_pad(image - np.mean(image), template - np.mean(template), NUMPY_BACKEND) for template in templates",
+                           "img_argmax = np.argmax(all_landscapes, axis=0)", "landscale_max = np.max(all_landscapes, axis=0)",
+                           "pos = find_maxima(landscale_max, min_distance, min_score)",
+                           "[img_argmax[tuple(np.round(p).astype(np.int32))] for p in pos]",
+                           "quats = self._index_to_quaternions(argmax_indices)",
+                           "return (pos + offset, quats, {'score': score})")))
+add("tmRotationLookup", "Pick", ["C20"], _PKB, "const", [],
+    pattern(lambda t: _has(ast.unparse(func(t, "BaseTemplateMatcher._index_to_quaternions")),
+                           "return np.take_along_axis(self._quaternions, argmax_indices[:, np.newaxis], axis=0)")
+            and _has(ast.unparse(func(t, "BaseTemplateMatcher.get_params_and_depth")),
+                     "rotators = [Rotation.from_quat(r).inv() for r in self._quaternions]",
+                     "_center = np.array(template.shape) / 2 - 0.5", "matrices = compose_matrices(_center, rotators)",
+                     "for mtx in matrices: pool.add_task(template, mtx, order=self.order, prefilter=False)",
+                     "out = pool.compute()", "templates = [o * mask for o in out]", "return ({'templates': templates}, depth)")))
+add("maxFilterIdentity", "Pick", ["C20"], _PKC, "expr", [("radius", R)],
+    lambda t: first(func(t, "maximum_filter"), ast.If).test)
+add("maxFilterRint", "Pick", ["C20"], _PKC, "expr", [("radius", R)],
+    lambda t: assign_rhs(func(t, "maximum_filter"), "r_int"))
+add("maxFilterFoot", "Pick", ["C20"], _PKC, "expr", [("radius", R), ("r_int", I), ("zz", I), ("yy", I), ("xx", I)],
+    lambda t: assign_rhs(func(t, "maximum_filter"), "foot"))
+add("findMaximaStructure", "Pick", ["C20"], _PKC, "const", [],
+    pattern(lambda t: _has(ast.unparse(func(t, "find_maxima")), "img_max_maxfilt = maximum_filter(img, min_distance)",
+                           "is_maxima = (img_max_maxfilt == img) & (img > min_intensity)",
+                           "label_img, nfeat = ndi.label(is_maxima, structure=structure)",
+                           "centers = ndi.center_of_mass(img, label_img, range(1, nfeat + 1))",
+                           "return np.array(centers, dtype=np.float32).reshape(-1, img.ndim)")
+            and _has(ast.unparse(func(t, "maximum_filter")), "return ndi.maximum_filter(image, footprint=foot, mode='nearest')")))
